@@ -130,6 +130,16 @@ func init() {
 		}
 		panic("unknown fn")
 	})
+	register("CtorTwins", func(s *Session, a Args) Res {
+		if a.Str("fn") == "int" {
+			ok1, o1 := encInt("NewIntegerFromInt", int(u64(a.Bytes("v"))), a.Int("size"))
+			ok2, o2 := encInt("EncodeIntN", int(u64(a.Bytes("v"))), a.Int("size"))
+			return Res{"ok1": ok1, "ok2": ok2, "out1": ints(o1), "out2": ints(o2)}
+		}
+		s1, e1 := data.NewI2PString(string(a.Bytes("s")))
+		s2, e2 := data.ToI2PString(string(a.Bytes("s")))
+		return Res{"ok1": e1 == nil, "ok2": e2 == nil, "out1": ints(s1), "out2": ints(s2)}
+	})
 	register("IntFromBytes", func(s *Session, a Args) Res {
 		i, err := data.NewIntegerFromBytes(a.Bytes("in"))
 		return Res{"ok": err == nil, "out": ints(i)}
